@@ -77,14 +77,19 @@ def bucket_pair(prefix_len, rng):
         i += 1
 
 
-def name_sets(rng, n):
-    """name sets of n mailboxes (the last one is the spare that is empty at the start)"""
+_PAIRS = {}
+
+
+def name_sets(seed, n):
+    """name sets of n mailboxes (the last one is the spare that is empty at the start); the hash-sharing pairs are
+    computed once per seed so that the whole run uses a small set of names"""
+    if seed not in _PAIRS:
+        rng = random.Random(seed)
+        _PAIRS[seed] = (bucket_pair(3, rng), bucket_pair(6, rng))
+    p3, p6 = _PAIRS[seed]
     plain = ["alpha", "beta", "gamma", "delta", "epsilon", "zeta", "eta"]
     at = ["user@example.com", "user@example.org", "other@example.com", "x@example.net", "y@example.net", "z@example.net"]
-    p3 = bucket_pair(3, rng)
-    p6 = bucket_pair(6, rng)
-    sets = [plain[:n], at[:n], (p3 + plain)[:n], (plain[:1] + p6 + plain[1:])[:n], (p6[:1] + plain[:n - 2] + p6[1:])[:n]]
-    return sets
+    return [plain[:n], at[:n], (p3 + plain)[:n], (plain[:1] + p6 + plain[1:])[:n], (p6[:1] + plain[:n - 2] + p6[1:])[:n]]
 
 
 def hours(cls, period, rng):
@@ -136,7 +141,7 @@ def behaviours_from(run, abstract, label, stores, periods):
     for i, beh in enumerate(abstract):
         rng = random.Random("%d/%d/%s" % (run.seed, i, label))
         nb = len(beh["dist"]) + 1
-        sets = name_sets(rng, nb)
+        sets = name_sets(run.seed, nb)
         for st in stores(i):
             for p in periods(i):
                 names = sets[(i + run.seed + (0 if st == "mem" else 1)) % len(sets)]
@@ -248,7 +253,17 @@ def c12(run, args):
     bothp = lambda i: [1, 24]
     beh = behaviours_from(run, und, "und", both, rotp if quick else bothp)
     beh += behaviours_from(run, env, "env", both, rotp)
-    beh += behaviours_from(run, can, "can", both, rotp)
+    canb = behaviours_from(run, can, "can", both, rotp)
+    # promptness probes: with a long retentionSleep and several mailboxes still to go, a scan that ignored the shutdown
+    # request would need longer than the bound (a correct one returns at once, so these cost little)
+    slow = 0
+    for b in canb:
+        st = b["steps"][0] if b["steps"] else {}
+        if slow < (8 if quick else 32) and st.get("how") in ("sleep", "between") and st.get("k") == 1 and sum(1 for x in b["init"] if x) >= 3:
+            b["sleep_ms"] = 1500
+            b["id"] += "-slow"
+            slow += 1
+    beh += canb
     beh += behaviours_from(run, loop, "loop", both, rotp)
     long_beh = behaviours_from(run, wake, "wake", both, rotp)
     run.cov["samples"] = [x for x in (und[len(und) // 2] if und else None, env[len(env) // 3] if env else None,
